@@ -7,20 +7,20 @@ import gen
 PROPS = {
     "C01": {"profiles": ["struct-flat", "member-instrs"], "n_quick": 1500},
     "C02": {"profiles": ["enum", "multi-counterpart"], "n_quick": 1500},
-    "C03": {"profiles": ["tree"], "n_quick": 1500},
+    "C03": {"profiles": ["tree", "parents"], "n_quick": 1800},
     "C04": {"profiles": ["traits", "generics"], "n_quick": 1500},
     "C05": {"profiles": ["member-instrs", "multi-counterpart"], "n_quick": 1500},
     "C06": {"profiles": ["multi-counterpart", "tree", "enum"], "n_quick": 1500},
     "C07": {"profiles": ["struct-flat", "tree", "enum"], "n_quick": 1500},
-    "C08": {"profiles": ["trait-params", "tree"], "n_quick": 1500},
+    "C08": {"profiles": ["trait-params", "tree", "trait-repeat"], "n_quick": 1800},
     "C09": {"profiles": ["enum-prim"], "n_quick": 1200},
     "C10": {"profiles": ["expr"], "n_quick": 1500},
     "C11": {"profiles": ["generics"], "n_quick": 1500},
     "C12": {"profiles": ["traits", "member-instrs", "enum"], "n_quick": 1500},
     "C13": {"profiles": ["struct-flat", "enum", "tree", "trait-params"], "n_quick": 1200, "backends": ["s1", "s2"]},
-    "C14": {"profiles": ["repeat"], "n_quick": 1500},
-    "C15": {"profiles": ["faults", "hostile"], "n_quick": 1500},
-    "C16": {"profiles": ["hostile", "enum-prim", "tree", "faults"], "n_quick": 2000},
+    "C14": {"profiles": ["repeat", "trait-repeat"], "n_quick": 1800},
+    "C15": {"profiles": ["faults", "hostile", "parents", "trait-repeat"], "n_quick": 2000},
+    "C16": {"profiles": ["hostile", "enum-prim", "tree", "faults", "parents"], "n_quick": 2500},
     "C17": {"profiles": ["struct-flat", "enum", "tree", "trait-params", "generics"], "n_quick": 1500},
     "C18": {"profiles": ["hostile", "struct-flat", "enum", "tree"], "n_quick": 1600, "backends": ["s1", "s2"]},
     "C19": {"profiles": ["faults", "hostile", "multi-counterpart"], "n_quick": 1500},
@@ -309,6 +309,221 @@ def oracle_c06(cases, results, seed, thorough):
     return fails, n
 
 
+
+TRAIT_OF_KIND = {
+    "from_owned": ("::core::convert::From", False, False), "from_ref": ("::core::convert::From", True, False),
+    "owned_into": ("::core::convert::Into", False, False), "ref_into": ("::core::convert::Into", False, True),
+    "owned_into_existing": ("o2o::traits::IntoExisting", False, False), "ref_into_existing": ("o2o::traits::IntoExisting", False, True),
+}
+TRY_TRAIT = {"::core::convert::From": "::core::convert::TryFrom", "::core::convert::Into": "::core::convert::TryInto", "o2o::traits::IntoExisting": "o2o::traits::TryIntoExisting"}
+FN_OF_TRAIT = {"::core::convert::From": "from", "::core::convert::TryFrom": "try_from", "::core::convert::Into": "into", "::core::convert::TryInto": "try_into",
+               "o2o::traits::IntoExisting": "into_existing", "o2o::traits::TryIntoExisting": "try_into_existing"}
+
+
+def norm_ty(s):
+    s = re.sub(r"&\s*'o2o\s*", "&", s)
+    return re.sub(r"\s+", "", s)
+
+
+def oracle_c17(cases, seed, thorough):
+    """every accepted expansion must parse as a file of impl items of the right shape"""
+    fails = []
+    # domain: inputs that are well-formed by construction — the repository's own derive inputs (and, once built, the
+    # designed closed programs of the runtime tie). Randomly generated inputs may pair a member name of the wrong kind
+    # (index vs identifier) with a counterpart shape, which the derive does not validate; that is outside C17's premise.
+    cases = [c for c in cases if re.match(r"^(t|u#|r#|k|d)", c[0]) and not c[0].startswith("tree") and not c[0].startswith("trait")]
+    outs, an = L.analyze("s1", cases)
+    n = 0
+    src = dict(cases)
+    for i, _ in cases:
+        if outs[i][0] != "OK":
+            continue
+        n += 1
+        a = an.get(i)
+        if a is None:
+            continue
+        if not a.get("parse_ok"):
+            fails.append({"source": src[i], "what": "accepted input expands to tokens that are not a sequence of items: " + a.get("parse_error", "")[:80]})
+            continue
+        for it in a["items"]:
+            if it["kind"] != "impl" or it["trait"] not in FN_OF_TRAIT:
+                fails.append({"source": src[i], "what": "output item is not an impl of one of the six conversion traits", "detail": it})
+                break
+            want_fn = FN_OF_TRAIT[it["trait"]]
+            fallible = "Try" in it["trait"]
+            if it["fns"] != [want_fn] or it["other_items"] != 0 or (len(it["assoc"]) != (1 if fallible else 0)) or (fallible and not it["assoc"][0].startswith("Error =")):
+                fails.append({"source": src[i], "what": "impl item does not hold exactly the required method (+ Error type for fallible traits)", "detail": it})
+                break
+    return fails, n
+
+
+def expected_impls(it):
+    """documented impl set of a structured item: multiset of (trait, arg is ref, self is ref, counterpart, error type)"""
+    exp = []
+    for a in it.attrs:
+        if not (a.tag and a.tag[0] == "trait"):
+            continue
+        kinds, fall = gen.kinds_of(a.name)
+        cpart = a.tag[1]
+        head = a.args.split("|", 1)[0]
+        err = None
+        if fall:
+            # error type = text after the first top-level comma that follows the counterpart (and optional hint)
+            rest = head[len(cpart):] if head.startswith(cpart) else head
+            m = re.search(r",\s*(.+)$", rest)
+            err = m.group(1).strip() if m else None
+        for k in kinds:
+            tr, argref, selfref = TRAIT_OF_KIND[k]
+            if fall:
+                tr = TRY_TRAIT[tr]
+            exp.append((tr, argref, selfref, norm_ty(cpart.replace("::<", "<")), norm_ty(err) if err else None))
+    return sorted(exp, key=str)
+
+
+def oracle_c04(cases, seed, thorough):
+    fails = []
+    items = []
+    for k, prof in enumerate(["traits", "generics", "struct-flat", "enum"]):
+        items += gen.gen_items(prof, seed * 1000 + 600 + k, 200 if not thorough else 2500)
+    srcs = [(it.meta["id"], gen.render(it)) for it in items]
+    outs, an = L.analyze("s1", srcs)
+    n = 0
+    for it, (i, s) in zip(items, srcs):
+        if outs[i][0] != "OK" or not an.get(i, {}).get("parse_ok"):
+            continue
+        n += 1
+        got = []
+        for im in an[i]["items"]:
+            if im["kind"] != "impl":
+                continue
+            arg = im["trait_args"].strip()
+            arg = arg[1:-1].strip() if arg.startswith("<") else arg
+            argref = arg.startswith("&")
+            selfref = im["self_ty"].strip().startswith("&")
+            cp = norm_ty(re.sub(r"^&\s*('o2o\s*)?", "", arg))
+            err = None
+            for a in im["assoc"]:
+                if a.startswith("Error ="):
+                    err = norm_ty(a[len("Error ="):])
+            got.append((im["trait"], argref, selfref, cp.replace("::<", "<"), err))
+        if sorted(got, key=str) != expected_impls(it):
+            fails.append({"source": s, "what": "the set of generated impls differs from the documented set for these trait instructions",
+                          "detail": {"expected": expected_impls(it), "got": sorted(got, key=str)}})
+    return fails, n
+
+
+ALLOWED_INTRODUCED = {"core", "convert", "result", "o2o", "traits", "From", "TryFrom", "Into", "TryInto", "IntoExisting", "TryIntoExisting", "Result",
+                      "Default", "Ok", "default", "Error", "impl", "for", "fn", "type", "let", "mut", "match", "where", "as", "_", "self", "value", "other", "obj",
+                      "from", "try_from", "into", "try_into", "into_existing", "try_into_existing"}
+
+
+def oracle_c20(cases, seed, thorough):
+    fails = []
+    outs, an = L.analyze("s1", cases)
+    n = 0
+    src = dict(cases)
+    for i, _ in cases:
+        if outs[i][0] != "OK" or i not in an:
+            continue
+        n += 1
+        bad = [x for x in an[i]["introduced"] if x not in ALLOWED_INTRODUCED and not re.fullmatch(r"f\d+", x)]
+        if bad:
+            fails.append({"source": src[i], "what": "generated code introduces identifiers that come neither from the user nor from core / o2o::traits / the prelude: " + ", ".join(bad[:6])})
+    return fails, n
+
+
+def oracle_c11(cases, seed, thorough):
+    fails = []
+    outs, an = L.analyze("s1", cases)
+    n = 0
+    src = dict(cases)
+    for i, _ in cases:
+        if outs[i][0] != "OK" or not an.get(i, {}).get("parse_ok"):
+            continue
+        n += 1
+        for im in an[i]["items"]:
+            if im["kind"] != "impl":
+                continue
+            if im["undeclared_lifetimes"]:
+                fails.append({"source": src[i], "what": "impl header uses a lifetime that the impl does not declare: '" + im["undeclared_lifetimes"][0]})
+                break
+            st = re.sub(r"::", "", im["self_ty"])
+            if re.search(r"<[^<>]*(:|=|\bconst\b)", st):
+                fails.append({"source": src[i], "what": "the deriving type is not applied in argument form: bounds / defaults / `const` appear in its argument list", "detail": im["self_ty"]})
+                break
+    return fails, n
+
+
+def fn_body(item_tokens):
+    """tokens of the fn body of an impl item (last brace group inside the impl's brace group)"""
+    toks = item_tokens.split()
+    # find `ifn`, then the first `{` after the parameter list at depth of the impl body
+    try:
+        k = toks.index("ifn")
+    except ValueError:
+        return None
+    depth = 0
+    start = None
+    for n in range(k, len(toks)):
+        t = toks[n]
+        if t in ("(", "[", "N("):
+            depth += 1
+        elif t in (")", "]", "N)"):
+            depth -= 1
+        elif t == "{" and depth == 0:
+            start = n
+            break
+    if start is None:
+        return None
+    return " ".join(toks[start:-1])
+
+
+def oracle_c07(cases, seed, thorough):
+    """owned vs by-reference flavour of the same mapping: when every instruction of the item applies to both
+    flavours alike (only map / from / into / into_existing style names), the two fn bodies must be token-identical
+    up to the `&` of a bare-parent conversion."""
+    fails = []
+    items = []
+    for k, prof in enumerate(["struct-flat", "enum", "tree"]):
+        items += gen.gen_items(prof, seed * 1000 + 650 + k, 250 if not thorough else 3000)
+    sym = {"map", "from", "into", "into_existing", "try_map", "try_from", "try_into", "try_into_existing", "ghost", "ghosts", "child", "child_parents",
+           "parent", "as_type", "where_clause", "type_hint", "literal", "pattern", "repeat", "skip_repeat", "stop_repeat"}
+
+    def names(it):
+        out = [a.name for a in it.attrs]
+        for f in it.fields:
+            out += [a.name for a in f.attrs]
+        for v in it.variants:
+            out += [a.name for a in v.attrs]
+            for f in v.fields:
+                out += [a.name for a in f.attrs]
+        return out
+    items = [it for it in items if all(n in sym for n in names(it)) and "[" not in "".join(a.args or "" for f in it.fields for a in f.attrs if a.name == "parent")]
+    srcs = [(it.meta["id"], gen.render(it)) for it in items]
+    outs = expand("s1", srcs)
+    n = 0
+    for i, s in srcs:
+        if outs[i][0] != "OK":
+            continue
+        n += 1
+        groups = collections.defaultdict(list)
+        for im in split_impls(outs[i][1]):
+            m = re.search(r"i(From|TryFrom|Into|TryInto|IntoExisting|TryIntoExisting) p< (.*?) p> ifor (.*?) \{", im)
+            if not m:
+                continue
+            key = (m.group(1), norm_ty(re.sub(r"p& (j' io2o )?", "", m.group(2))), norm_ty(re.sub(r"p& (j' io2o )?", "", m.group(3))))
+            groups[key].append(fn_body(im))
+        for key, bodies in groups.items():
+            if len(bodies) == 2 and None not in bodies:
+                a, b = [x.replace("( p& ivalue )", "ivalue") for x in bodies]
+                a = re.sub(r"\( p& \( (iself p\. \S+) \) \)", r"\1", a)
+                b = re.sub(r"\( p& \( (iself p\. \S+) \) \)", r"\1", b)
+                if a != b:
+                    fails.append({"source": s, "what": f"owned and by-reference {key[0]} impls of the same mapping have different bodies", "detail": {"a": bodies[0][:500], "b": bodies[1][:500]}})
+                    break
+    return fails, n
+
+
 def run_oracle(prop, cases, results, seed, thorough, disagreements):
     out = {"name": None, "evaluated": 0, "failures": []}
     try:
@@ -333,6 +548,21 @@ def run_oracle(prop, cases, results, seed, thorough, disagreements):
         elif prop == "C06":
             out["name"] = "metamorphic: projection onto one counterpart on the real derive"
             out["failures"], out["evaluated"] = oracle_c06(cases, results, seed, thorough)
+        elif prop == "C17":
+            out["name"] = "syn-2 `File` parse + shape inspection of the real output of every accepted case"
+            out["failures"], out["evaluated"] = oracle_c17(cases, seed, thorough)
+        elif prop == "C04":
+            out["name"] = "impl headers of the real output (parsed with syn 2) vs the documented impl set of the instructions"
+            out["failures"], out["evaluated"] = oracle_c04(cases, seed, thorough)
+        elif prop == "C20":
+            out["name"] = "identifier scan of the real output minus the input's identifiers"
+            out["failures"], out["evaluated"] = oracle_c20(cases, seed, thorough)
+        elif prop == "C11":
+            out["name"] = "every lifetime used in a real impl header is declared by that impl"
+            out["failures"], out["evaluated"] = oracle_c11(cases, seed, thorough)
+        elif prop == "C07":
+            out["name"] = "owned vs by-reference bodies of symmetric mappings on the real output"
+            out["failures"], out["evaluated"] = oracle_c07(cases, seed, thorough)
         else:
             out["name"] = "none beyond the correspondence (a broken tie is reported without a failing input)"
     except Exception as e:  # an oracle that cannot run must not hide a result
